@@ -64,12 +64,20 @@ fn main() {
         }
     }
     match run(PathBuf::from(&args[1]), PathBuf::from(&args[2]), overrides) {
-        Ok(n) => println!("rs2lean: {} Lean files written to {}", n, args[2]),
+        Ok((n, failed)) => {
+            println!("rs2lean: {} Lean files written to {}", n, args[2]);
+            if !failed.is_empty() {
+                // keep going: a target outside the supported subset fails ITS module (and the modules that need it); the other
+                // modules are still regenerated, so that only the properties that depend on a failed module lose their tie
+                for (m, e) in &failed { eprintln!("rs2lean: FAILED module {}: {}", m, e); }
+                std::process::exit(3);
+            }
+        }
         Err(e) => { eprintln!("rs2lean: ERROR: {}", e); std::process::exit(1); }
     }
 }
 
-fn run(root: PathBuf, out_dir: PathBuf, overrides: HashMap<String, PathBuf>) -> Res<usize> {
+fn run(root: PathBuf, out_dir: PathBuf, overrides: HashMap<String, PathBuf>) -> Res<(usize, Vec<(String, String)>)> {
     for rel in overrides.keys() {
         let known = targets::TARGETS.iter().any(|t| t.file == rel) || targets::FLAT_STRUCTS.iter().any(|(_, f)| f == rel) || targets::ALIAS_FILES.contains(&rel.as_str()) || rel == monadic::PGN.file;
         if !known { return Err(format!("--override {}: no target reads this file", rel)); }
@@ -111,13 +119,22 @@ fn run(root: PathBuf, out_dir: PathBuf, overrides: HashMap<String, PathBuf>) -> 
 
     let mut modules: BTreeMap<String, ModuleOut> = BTreeMap::new();
     let mut order: Vec<String> = vec![];
+    let mut failed: Vec<(String, String)> = vec![];
     for t in targets::TARGETS {
-        world.load(t.file)?;
+        if failed.iter().any(|(m, _)| m == t.module) { continue; }
+        if let Err(e) = world.load(t.file) { failed.push((t.module.to_string(), e)); continue; }
         if !modules.contains_key(t.module) {
             order.push(t.module.to_string());
             modules.insert(t.module.to_string(), ModuleOut { deps: HashSet::new(), sources: vec![], items: vec![] });
         }
-        let (text, deps) = translate_target(&mut world, t)?;
+        let (text, deps) = match translate_target(&mut world, t) {
+            Ok(x) => x,
+            Err(e) => { failed.push((t.module.to_string(), e)); continue; }
+        };
+        if let Some(d) = deps.iter().find(|d| failed.iter().any(|(m, _)| m == *d)) {
+            failed.push((t.module.to_string(), format!("depends on the failed module `{}`", d)));
+            continue;
+        }
         let m = modules.get_mut(t.module).unwrap();
         if !m.sources.contains(&t.file.to_string()) { m.sources.push(t.file.to_string()); }
         m.deps.extend(deps);
@@ -144,6 +161,7 @@ fn run(root: PathBuf, out_dir: PathBuf, overrides: HashMap<String, PathBuf>) -> 
         n += 1;
     }
     for name in &order {
+        if failed.iter().any(|(m, _)| m == name) { continue; }      // the previous file stays
         let m = &modules[name];
         let mut s = header(&format!("Module `{}`.  Semantics of the translation: see the header of `Prelude.lean`.", name), &m.sources);
         s.push_str("-/\nimport Inkayaku.Gen.Rs.Prelude\n");
@@ -164,16 +182,22 @@ fn run(root: PathBuf, out_dir: PathBuf, overrides: HashMap<String, PathBuf>) -> 
     {
         // monadic mode: the PGN reader
         let spec = &monadic::PGN;
-        let text = monadic::generate(&mut world, spec)?;
+        match monadic::generate(&mut world, spec) {
+          Err(e) => failed.push((spec.module.to_string(), e)),
+          Ok(text) => {
         let mut s = header(&format!("Module `{}` (MONADIC MODE: `&mut self` methods as `do` blocks in the state monad `RsM`; see the module documentation of translator/src/monadic.rs and the header of `Prelude.lean`).", spec.module), &[spec.file.to_string()]);
-        s.push_str("-/\nimport Inkayaku.Gen.Rs.Prelude\n");
+        s.push('\n');
+        s.push_str(monadic::SEMANTICS);
+        s.push_str("\n-/\nimport Inkayaku.Gen.Rs.Prelude\n");
         s.push_str("\nset_option linter.unusedVariables false\n\nnamespace Inkayaku.Rs\n\n");
         s.push_str(&text);
         s.push_str("\n\nend Inkayaku.Rs\n");
         write(&out_dir.join(format!("{}.lean", spec.module)), &s)?;
         n += 1;
+          }
+        }
     }
-    Ok(n)
+    Ok((n, failed))
 }
 
 fn write(p: &std::path::Path, s: &str) -> Res<()> {
